@@ -395,6 +395,8 @@ Verdict run_sched_case(const Case &c, SchedProp which)
     v.classes.push_back("spurious_wakeup");
   if (nch > (uint64_t)e.T)
     v.classes.push_back("buffer_refilled");
+  if (nch > 256)
+    v.classes.push_back("more_than_256_chunk_loads");
   if ((uint64_t)e.T > nch)
     v.classes.push_back("T>chunks");
   if (e.P.empty())
@@ -641,6 +643,17 @@ Case gen_sched_case(SchedProp which)
     r = 0;
   r %= chunk;
   uint64_t len = (uint64_t)q * chunk + (uint64_t)r;
+  if (wapi::has_scheduler() && g::coin(1))
+  {
+    // a long run: several hundred chunk loads through 2..9 buffers (cursors, sequence numbers and counters that
+    // fit a byte for every ordinary case wrap here; a worker count that does not divide 256 then loses its place)
+    T = (int)g::oneof<long>({3, 5, 6, 7, 3, 5, 2, 4, 9});
+    bpc = 1;
+    chunk = 16;
+    q = g::range(257, 340);
+    r = g::range(0, 16);
+    len = (uint64_t)q * 16 + (uint64_t)r;
+  }
   c.seti("plen", (long long)len);
   c.set("pseed", std::to_string(g::u64()));
   c.seti("pstyle", 0);
